@@ -249,11 +249,25 @@ fn run_emfile(t: Transport) -> (String, String, String, String) {
     use message_io::node::{self, NodeEvent};
     let (handler, listener) = node::split::<()>();
     let (_lid, addr) = handler.network().listen(t, "127.0.0.1:0").unwrap();
+    // a healthy connection on a second (Tcp) listener of the same node: the node echoes what it says
+    let (_lid2, echo_addr) = handler.network().listen(Transport::Tcp, "127.0.0.1:0").unwrap();
+    let h2 = handler.clone();
     let task = listener.for_each_async(move |e| {
-        if let NodeEvent::Network(_) = e {}
+        if let NodeEvent::Network(NetEvent::Message(ep, data)) = e {
+            if ep.resource_id().adapter_id() == Transport::Tcp.id() && data.first() == Some(&b'p') {
+                h2.network().send(ep, data);
+            }
+        }
     });
     // a first connection goes through normally
     let _first = TcpStream::connect(addr).ok();
+    let mut healthy = TcpStream::connect(echo_addr).unwrap();
+    healthy.set_read_timeout(Some(Duration::from_secs(2))).ok();
+    let mut echo = |s: &mut TcpStream| -> bool {
+        let mut buf = [0u8; 4];
+        s.write_all(b"ping").is_ok() && s.read_exact(&mut buf).is_ok() && &buf == b"ping"
+    };
+    let served_before = echo(&mut healthy);
     std::thread::sleep(Duration::from_millis(100));
     let (tx, rx) = std::sync::mpsc::channel();
     let (go_tx, go_rx) = std::sync::mpsc::channel::<()>();
@@ -279,6 +293,8 @@ fn run_emfile(t: Transport) -> (String, String, String, String) {
     let client = TcpStream::connect(addr);
     let exhausted = std::fs::File::open("/dev/null").is_err();
     std::thread::sleep(Duration::from_millis(300));
+    // while accept() keeps failing, the established connection must still be served
+    let served_during = echo(&mut healthy);
     handler.stop();
     let _ = go_tx.send(());
     let in_time = rx.recv_timeout(Duration::from_secs(3)).is_ok();
@@ -289,16 +305,19 @@ fn run_emfile(t: Transport) -> (String, String, String, String) {
         let _ = rx.recv_timeout(Duration::from_secs(5));
     }
     let _ = waiter.join();
-    let ok = in_time && client.is_ok() && exhausted;
+    let ok = in_time && client.is_ok() && exhausted && served_before && served_during;
     (
         // a '#' case is not put to the model: the fault could not be produced here, nothing is compared
         if client.is_err() || !exhausted { format!("#emfile-setup-failed {}", t) } else { format!("net emfile {}", t) },
-        if client.is_err() || !exhausted { "setup-failed".into() } else { format!("stopped_in_time={}", in_time) },
+        if client.is_err() || !exhausted { "setup-failed".into() } else { format!("stopped_in_time={} served={}", in_time, served_before && served_during) },
         if ok {
             "ok".into()
         }
         else if client.is_err() || !exhausted {
             "ok".into() // could not produce the fault on this machine: nothing is claimed
+        }
+        else if !(served_before && served_during) {
+            format!("FAIL with the descriptor table full and a connection waiting at the {} listener, an established connection of the same node was no longer served (echo before: {}, during: {})", t, served_before, served_during)
         }
         else {
             "FAIL 3 s after stop() the node's threads were still running: the accept loop keeps retrying a failing accept() (EMFILE)".into()
@@ -674,6 +693,69 @@ fn scenario_endings(w: &mut World, t: Transport, k: u64, rng: &mut Rng) {
         peer_end(p, reset);
     };
     match k {
+        10 if t == Transport::Ws => {
+            // the node is the WebSocket *client*; an RFC 6455 style server sends a message and a Close frame
+            // and then keeps its TCP connection open, waiting for the client to answer and go: the message
+            // must be delivered and the endpoint must end (Disconnected) without any further traffic
+            let l = TcpListener::bind("127.0.0.1:0").unwrap();
+            let srv_addr = l.local_addr().unwrap();
+            let (tx, rx) = std::sync::mpsc::channel::<bool>();
+            let server = std::thread::spawn(move || {
+                let Ok((s, _)) = l.accept() else { return };
+                s.set_read_timeout(Some(Duration::from_millis(1500))).ok();
+                let Ok(mut ws) = tungstenite::accept(s) else {
+                    let _ = tx.send(false);
+                    return
+                };
+                let _ = ws.send(tungstenite::Message::Binary(vec![9u8; 11].into()));
+                let _ = ws.close(None);
+                let _ = ws.flush();
+                // the server now waits for the client to go away, keeping its own socket open and untouched
+                std::thread::sleep(Duration::from_millis(1200));
+                ws.get_ref().set_read_timeout(Some(Duration::from_millis(300))).ok();
+                let mut saw_end = false;
+                loop {
+                    match ws.read() {
+                        Ok(_) => continue,
+                        Err(tungstenite::Error::Io(e)) if e.kind() == std::io::ErrorKind::WouldBlock || e.kind() == std::io::ErrorKind::TimedOut => break,
+                        Err(_) => {
+                            // the close handshake is complete for tungstenite; was the TCP connection ended by the client?
+                            let mut b = [0u8; 1];
+                            saw_end = !matches!(ws.get_mut().read(&mut b), Err(ref e) if e.kind() == std::io::ErrorKind::WouldBlock || e.kind() == std::io::ErrorKind::TimedOut);
+                            break
+                        }
+                    }
+                }
+                let _ = tx.send(saw_end);
+            });
+            let ep = w.connect(t, srv_addr);
+            eps.push(ep);
+            let id = ep.resource_id();
+            // judged while the server still holds its connection open: nothing else will arrive
+            w.pump(600);
+            if w.ctl.is_ready(id).is_some() {
+                w.leaks.push(format!("the server sent a Close frame (and keeps its connection open) but {} is still registered 600 ms later: no Disconnected", id));
+            }
+            let mut peer_saw_end = None;
+            for _ in 0..25 {
+                w.pump(100);
+                if let Ok(x) = rx.try_recv() {
+                    peer_saw_end = Some(x);
+                    break
+                }
+            }
+            let _ = server.join();
+            if peer_saw_end == Some(false) {
+                w.leaks.push("the server sent a Close frame and waited 1.2 s: the client never ended the connection".to_string());
+            }
+            let msgs = w.hist.iter().filter(|i| matches!(i, Item::EvMessage(x, _) if *x == id)).count();
+            if msgs != 1 {
+                w.leaks.push(format!("{} of the 1 message sent before the server's Close frame was delivered", msgs));
+            }
+            if w.ctl.is_ready(id).is_some() {
+                w.leaks.push(format!("the server sent a Close frame (and keeps its connection open) but {} is still registered: no Disconnected (the server saw the connection end: {:?})", id, peer_saw_end));
+            }
+        }
         9 => {
             // destinations the OS rejects at once (TCP towards multicast / broadcast addresses: ENETUNREACH or
             // EINVAL from connect(2) itself): connect() either reports the error, or it returns an endpoint
@@ -1007,7 +1089,7 @@ fn run_scenarios(out: &mut impl std::io::Write, seed: u64, n: u64, only: Option<
         let mut r = Rng::new(1);
         scenario_conn(&mut w, Transport::Tcp, &mut r);
     }
-    const ENDINGS: u64 = 30; // 10 fixed endings x 3 stream transports, before the random scenarios
+    const ENDINGS: u64 = 33; // 11 fixed endings x 3 stream transports, before the random scenarios
     for i in 0..n + ENDINGS {
         if only.map_or(false, |k| k != i) {
             continue
